@@ -1,6 +1,8 @@
 import Driver.Util
+import Driver.Matcher
 -- engines of work area Matcher: import your Driver.<Engine> modules above and list them here
 namespace Driver.Reg.Matcher
 def engines : List (String × IO UInt32) := [
+  ("matcher", Driver.runEngine Driver.Matcher.engine)
 ]
 end Driver.Reg.Matcher
